@@ -190,14 +190,21 @@ class Merger(object):
     def write_channel_data(self):
         """Write channel-dependent data, and register self.channel_offsets."""
         self.channel_offsets = []
+        # Offsets of each probe's block in the merged channel numbering (row of channel_map.npy,
+        # column of templates.npy): cumulative channel counts, which differ from the raw data
+        # offsets when a channel map has gaps.
+        self.channel_index_offsets = []
         channel_probes = []
         channel_maps_l = _load_multiple_files('channel_map.npy', self.subdirs)
         # TODO if needed: channel_shanks.npy
         offset = 0
+        index_offset = 0
         for ind, array in enumerate(channel_maps_l):
             array += offset
             self.channel_offsets.append(offset)
+            self.channel_index_offsets.append(index_offset)
             offset = int(array.max()) + 1
+            index_offset += len(array)
             channel_probes.append(array * 0 + ind)
         channel_maps = _concat(channel_maps_l, axis=0)
         channel_probes = _concat(channel_probes, axis=0)
@@ -258,7 +265,10 @@ class Merger(object):
             arrays = _load_multiple_files(fn, self.subdirs)
             # For ind arrays, we need to take into account the channel offset
             # (pc features) or the template offset (template features).
-            offsets = self.channel_offsets if fn == 'pc_feature_ind.npy' else self.template_offsets
+            if fn == 'pc_feature_ind.npy':
+                offsets = self.channel_index_offsets
+            else:
+                offsets = self.template_offsets
             for array, offset in zip(arrays, offsets):
                 array += int(offset)
             concat = _concat(arrays, axis=0).astype(np.uint32)
